@@ -77,7 +77,7 @@ def cases(tier, rng):
                 continue
             if kind in ("propget", "propset", "propdel"):
                 continue
-            for mis in ("kw__ARGS", "kw__KWARGS", "param_result", "param_OLD", "param_result_nopost"):
+            for mis in ("kw__ARGS", "kw__KWARGS", "param_result", "param_OLD", "param_result_nopost", "param_result_None", "param_OLD_None"):
                 for with_pre in (False, True):
                     lv = {"pre": [], "snaps": [], "posts": []}
                     c = genck.base_case(kind, async_, [lv])
@@ -91,6 +91,8 @@ def cases(tier, rng):
                     else:
                         nm = "result" if "result" in mis else "OLD"
                         sig = c["sig"] + [{"name": nm, "kind": "posOrKw", "default": 61}]
+                        if mis.endswith("_None"):
+                            sig[-1]["pyNone"] = True      # the parameter's value at the call is the very object None
                         genck.set_sig(c, sig)
                         if not mis.endswith("nopost"):
                             lv["posts"].append(genck.contract(2, [], err={"cls": {"subBase": True, "truthy": True}}))
